@@ -17,7 +17,7 @@ import itertools
 
 DEFAULT_FEAT = dict(
     subtypes=True, constants=True, neg=True, equality=True, numeric=True, when=True, forall_eff=True,
-    or_pre=False, forall_pre=False, bare_pre=False, nested_numeric=False, nested_cond=False, join_names=False,   # nested / quantified / unwrapped preconditions
+    or_pre=False, forall_pre=False, bare_pre=False, nested_numeric=False, nested_cond=False, join_names=False, tiny_offsets=False,   # nested / quantified / unwrapped preconditions
     cond_numeric=True,                       # numeric comparisons inside when/forall conditions
     child_first_types=False,                 # D10 finding profile
     repeated_call_objects=True, long_names=False,
@@ -72,11 +72,18 @@ def gen_domain(t, feat=None, multi_agent=False):
     funcs = {}
     if f["numeric"]:
         fnames = t.shuffle(["f0", "f1", "f-2", "f_3", "ff"])
+        if f.get("nested_numeric"):
+            # nested conditions are hashed through the symbolic simplifier at parse time, which resolves a function
+            # called like a sympy name ('ff' is sympy's falling factorial) to that object and raises TypeError - a
+            # defect of the simplification layer (C13 / C01, not claimed); such names stay out of these runs
+            fnames = [("fg" if n == "ff" else n) for n in fnames]
         for i in range(1 + t.draw(f["max_funcs"])):
             funcs[fnames[i]] = [t.pick(tnames) for _ in range(t.draw(3))]
     D["functions"] = funcs
     acts = {}
-    anames = t.shuffle(["a0", "a1", "a-2", "a_3", "aa", "a10", "nop-wait", "noop", "no-op"])
+    # (actions and objects have separate name spaces: in multi-agent domains an action may be called like an agent)
+    anames = t.shuffle(["a0", "a1", "a-2", "a_3", "aa", "a10", "nop-wait", "noop", "no-op"] + (
+        ["ag0", "ag1"] if multi_agent else []))
     for ai in range(1 + t.draw(f["max_actions"])):
         npar = t.draw(f["max_params"] + 1)
         if long_names:
@@ -164,6 +171,14 @@ def gen_lit(t, D, scope, f):
     if k < 8 and f["equality"] and len(scope) >= 2:
         a, b = t.pick(scope)[0], t.pick(scope)[0]
         return ("=" if t.chance(1, 2) else "neq", a, b)
+    if f["numeric"] and D["functions"] and f.get("numeric_simple"):
+        # the shape used inside nested conditions: one fluent against a constant, constants that may differ from each
+        # other only beyond the fourth decimal
+        fn = gen_fn(t, D, scope)
+        if fn:
+            c = t.num(9, 0.5) + ([0.0, 0.0, 0.00001, 0.00004, 0.25] if f.get("tiny_offsets") else [0.0, 0.25])[t.draw(5 if f.get("tiny_offsets") else 2)]
+            return ("cmp", t.pick(["<", "<=", ">=", ">", ">", "<"]), fn, c)
+        return gen_atom(t, D, scope)
     if f["numeric"] and D["functions"]:
         fn = gen_fn(t, D, scope)
         if fn:
@@ -178,9 +193,30 @@ def gen_conj(t, D, scope, f, top=False, depth=2):
     # printer; numeric comparisons inside them run into the simplifier's defects already at parse time (TypeError /
     # AttributeError from the symbolic layer: C13's and C01's subject, neither claimed), so they are not generated
     # there unless feat["nested_numeric"] is set (no check sets it)
-    fn = f if f.get("nested_numeric") else dict(f, numeric=False)
+    fn = f if f.get("nested_numeric") == "full" else dict(f, numeric_simple=True) if f.get("nested_numeric") else dict(f, numeric=False)
+
+    def near_dup(d):
+        """the same disjunction with every numeric constant moved by 3e-5 (a sibling that differs beyond 4 decimals)"""
+        def sh(x):
+            if x[0] == "cmp":
+                return ("cmp", x[1], x[2], x[3] + 0.00003)
+            if x[0] in ("and", "or"):
+                return (x[0], [sh(y) for y in x[1]])
+            return x
+        return sh(d)
     def lits(sc, n):
-        return [x for x in (gen_lit(t, D, sc, fn) for _ in range(n)) if x]
+        out = []
+        for _ in range(n):
+            x = None
+            if fn.get("numeric_simple") and fn["numeric"] and D["functions"] and t.draw(3) == 0:
+                g = gen_fn(t, D, sc)
+                if g:
+                    c = t.num(9, 0.5) + ([0.0, 0.00001, 0.00004] if f.get("tiny_offsets") else [0.0])[t.draw(3 if f.get("tiny_offsets") else 1)]
+                    x = ("cmp", t.pick(["<", ">", "<=", ">="]), g, c)
+            x = x or gen_lit(t, D, sc, fn)
+            if x:
+                out.append(x)
+        return out
 
     def disj(sc):
         sub = []
@@ -199,6 +235,9 @@ def gen_conj(t, D, scope, f, top=False, depth=2):
             d = disj(scope)
             if d:
                 items.append(d)
+                if f.get("tiny_offsets") and repr(d).count("'cmp'") and t.draw(2) == 0:
+                    items.insert(len(items) - t.draw(2), near_dup(d))  # before or after its sibling
+                    D["_near_dup_siblings"] = D.get("_near_dup_siblings", 0) + 1
         elif k in (2, 3) and f["forall_pre"] and top:
             ty = t.pick(list(D["types"]))
             v = "?q"
@@ -243,7 +282,8 @@ def gen_simple_effects(t, D, scope, f, n):
 def gen_effects(t, D, params, f):
     effs = gen_simple_effects(t, D, params, f, t.draw(4))
     fc = f if f.get("cond_numeric", True) else dict(f, numeric=False)
-    fnn = dict(fc, numeric=False)  # inside nested conditions: no numeric comparisons (see gen_conj)
+    # inside nested conditions: no numeric comparisons, or only the simple shape (see gen_conj)
+    fnn = dict(fc, numeric_simple=True) if f.get("nested_numeric") and fc.get("numeric") else dict(fc, numeric=False)
 
     def cond(sc):
         """the condition of a when: a conjunction of literals; with nested_cond also disjunctions (possibly as the
@@ -321,10 +361,26 @@ def gen_problem(t, D, feat=None, agents=0):
                 facts.add((p,) + combo)
     fl = {}
     hard = f.get("hard_numbers", False)
+    # thresholds: the constants that fluents are compared with in (nested) conditions; some initial values are put on
+    # and right next to them (2e-5 away: between two constants that agree to four decimals)
+    thresholds = []
+
+    def collect(x):
+        if isinstance(x, (list, tuple)):
+            if len(x) == 4 and x[0] == "cmp" and isinstance(x[3], (int, float)):
+                thresholds.append(float(x[3]))
+            for y in x:
+                collect(y)
+    if f.get("tiny_offsets"):
+        for a in D["actions"].values():
+            collect(a["pre"])
+            collect(a["eff"])
     for fn, sig in D["functions"].items():
         for combo in itertools.product(*[objects_of(D, allobj, ty) for ty in sig]):
             if hard and t.chance(1, 3):
                 fl[(fn,) + combo] = HARD_NUMBERS[t.draw(len(HARD_NUMBERS))]
+            elif thresholds and t.chance(1, 3):
+                fl[(fn,) + combo] = thresholds[t.draw(len(thresholds))] + [0.00002, -0.00002, 0.0, 0.00002][t.draw(4)]
             else:
                 fl[(fn,) + combo] = t.num()
     goal = []
